@@ -216,7 +216,7 @@ fn generate(rng: &mut Rng) -> C15Sc {
         net: NetScenario {
             seed: rng.next_u64(),
             // a short deadline makes the listener give up on silent clients inside the history (only when no valid header trickles in)
-            cfg: NetCfg { secret, expiry: None, max_frame: None, timeout_ns: if !slow_headers && rng.chance(1, 2) { secs(2) } else { secs(30) }, proxy, limiter, use_start: false },
+            cfg: NetCfg { secret, expiry: None, max_frame: None, timeout_ns: if !slow_headers && rng.chance(1, 2) { secs(2) } else { secs(30) }, proxy, limiter, use_start: rng.chance(1, 4) },
             wall: Default::default(),
             services,
             clients,
@@ -320,7 +320,8 @@ pub fn check(sc: &C15Sc, out: &NetOutcome, rep: &mut RunReport) {
                 .filter(|e| e.kind == "call" && (e.actor == "svc:status" || e.actor == "svc:auth" || e.actor == "svc:filter") && e.detail["client_addr"].as_str() == Some(&m.effective))
                 .map(|e| &e.detail)
                 .collect();
-            if seen.is_empty() {
+            // (started through passage::start the built-in adapters keep no call log; the issued cookie still shows the address)
+            if seen.is_empty() && !sc.net.cfg.use_start {
                 rep.violate("services_see_effective_address", format!("connection {i} ({}) was served but no service call carries its effective address {}", m.kind, m.effective));
             }
             if let Some(ck) = c.view.stored_bytes(AUTH_KEY) {
@@ -359,7 +360,7 @@ impl Check for C15 {
         ]
     }
     fn components(&self) -> Value {
-        json!({"real": ["Listener::listen / handle", "proxy-header parser (ProxiedStream::create_from_tokio)", "RateLimiter", "Connection"], "stub": ["network (hook H1)", "clients + independent PROXY header writer", "services"]})
+        json!({"real": ["passage::start (configuration -> limiter / PROXY settings -> Listener) in a quarter of the runs", "Listener::listen / handle", "proxy-header parser (ProxiedStream::create_from_tokio)", "RateLimiter", "Connection"], "stub": ["network (hook H1)", "clients + independent PROXY header writer", "services"]})
     }
     fn count(&self, tier: Tier) -> u64 {
         match tier {
@@ -374,7 +375,7 @@ impl Check for C15 {
         if !net_domain_ok(&sc.net) {
             return RunReport::default();
         }
-        if sc.meta.len() != sc.net.clients.len() || sc.net.cfg.use_start || sc.net.stop_at_ns.is_some() || sc.net.cfg.timeout_ns < secs(2) || (sc.net.cfg.timeout_ns < secs(30) && sc.net.clients.iter().any(|c| !c.spec.cuts.is_empty())) {
+        if sc.meta.len() != sc.net.clients.len() || sc.net.stop_at_ns.is_some() || sc.net.cfg.timeout_ns < secs(2) || (sc.net.cfg.timeout_ns < secs(30) && sc.net.clients.iter().any(|c| !c.spec.cuts.is_empty())) {
             return RunReport::default();
         }
         if sc.net.cfg.limiter.is_some_and(|(d, l)| d == 0 || l == 0) {
@@ -428,6 +429,9 @@ impl Check for C15 {
         let mut h = crate::rng::Fnv(rep.trace_hash);
         if sc.net.clients.iter().any(|c| !c.spec.cuts.is_empty()) {
             *rep.faults.entry("proxy_header_trickles_in".into()).or_insert(0) += 1;
+        }
+        if sc.net.cfg.use_start {
+            *rep.faults.entry("started_through_the_application_entry_point".into()).or_insert(0) += 1;
         }
         for m in &sc.meta {
             h.write_str(&m.kind);
